@@ -67,6 +67,11 @@ func c18Request(kind, field string, size int) vlib.Req {
 		default:
 			h["Access-Control-Request-Method"] = []string{"P" + pad(size-1)}
 		}
+	case "origin-labels":
+		if unit == "" {
+			unit = "a"
+		}
+		h["Origin"] = []string{"https://" + strings.Repeat(unit+".", size) + "a.example"}
 	case "origin-elements":
 		if unit == "" {
 			unit = " "
@@ -251,6 +256,7 @@ func checkC18(c *vlib.Ctx) (string, string) {
 		{"acrh-lines:x-a;q=1", countLadder}, {"acrh-lines:x@y, (z)", countLadder}, {"acrh-lines:\x00", countLadder},
 		{"acrh-elements:x-a|x-b", countLadder}, {"acrh-elements:x-a|X-B|x-zz", countLadder}, {"acrh-elements:Authorization", countLadder},
 		{"acrh-empty-elements", countLadder},
+		{"origin-labels", countLadder}, {"origin-labels:\u00e9", countLadder}, {"origin-labels:xn--a", countLadder}, {"origin-labels:A", countLadder},
 		{"origin-elements", countLadder}, {"origin-elements:,", countLadder}, {"origin-elements:, ", countLadder}, {"origin-elements:\t", countLadder},
 		{"acrm-lines", countLadder}, {"acrm-lines:put", countLadder}, {"acrm-lines:Put", countLadder}, {"acrm-lines:query", countLadder}, {"origin-lines", countLadder}, {"acrpn-lines", countLadder},
 		{"acrh-lines", countLadder}, {"acrh-lines:X-A", countLadder}, {"acrh-lines:x-zz", countLadder}, {"acrh-lines:empty", countLadder}, {"acrh-lines:x-a,x-b", countLadder},
